@@ -818,6 +818,10 @@ pub fn worker(tier: &str) {
                     if !in_row(w.describe) {
                         continue;
                     }
+                } else if w.only.is_some() {
+                    if !in_row(w.only) {
+                        continue;
+                    }
                 } else if row % w.nshards != w.shard || (base + ncols - 1) as i64 <= w.resume_after {
                     continue;
                 }
@@ -836,7 +840,7 @@ pub fn worker(tier: &str) {
                         }
                         continue;
                     }
-                    if (idx as i64) <= w.resume_after {
+                    if (idx as i64) <= w.resume_after || w.only.map_or(false, |o| o != idx) {
                         continue;
                     }
                     w.begin(idx);
